@@ -1,6 +1,7 @@
 import KitProofs.Props.C04Parser
 import KitProofs.Props.C04Next
 import KitProofs.Props.C04Bridge
+import KitProofs.Props.C04Dst
 import KitProofs.Props.C03
 import KitProofs.Props.C01NoPanic
 import KitProofs.Lemmas.NoPanicSym
@@ -40,6 +41,36 @@ theorem cron_parse_then_next_returns (env : Cron.Env) (o : Cron.Opts) (h2 : o.tw
   rcases hr with ⟨r, hr, _⟩ | ⟨hz, _⟩
   · exact Or.inl ⟨_, hr⟩
   · exact Or.inr hz
+
+/-- `Next` terminates on every zone with hour transitions (C04Dst): for every transition table that
+passes the decidable check `hourTable` (whole-hour offsets with |off| ≤ 26 h, transitions on whole
+UTC hours changing the offset by exactly one hour, ≥ 1801 h apart — America/Havana, New_York, …),
+every schedule and every start instant, neither the `goto WRAP` bound nor an inner loop bound is
+exhausted. -/
+theorem cron_next_terminates_hour_zones (z : CronSpec.Zone) (hz : CronSpec.hourTable z = true)
+    (s : CronSpec.Sched) (tn : Int) : CronSpec.next s z tn ≠ .fuel := by
+  have h := CronSpec.next_dst_tables z hz s tn
+  intro hf
+  rw [hf] at h
+  exact h
+
+/-- …and for every accepted cron expression on such a zone `Next` returns an instant or the zero time. -/
+theorem cron_parse_then_next_returns_hour_zones (env : Cron.Env) (o : Cron.Opts) (h2 : o.twoOptionals = false)
+    (spec : List Char) (s : Cron.SpecSchedule) (loc : Option String)
+    (h : Cron.parse env o spec = .ok (.spec s loc)) (z : CronSpec.Zone) (hz : CronSpec.hourTable z = true) (tn : Int) :
+    CronSpec.next (CronBridge.toSched s) z tn ≠ .fuel := by
+  obtain ⟨_, e, _, _, hn⟩ := CronBridge.parse_then_next_spec_dst env o h2 spec s loc h
+  have := hn z hz tn
+  intro hf
+  rw [hf] at this
+  exact this
+
+/-- Termination is FALSE for arbitrary transition tables (C04Dst `next_spins_on_52h_skip`): on a table
+with a 52-hour forward skip the day search never leaves the gap and the model runs out of fuel —
+the bound on the shift is needed; zones outside `hourTable` (Lord_Howe, Troll, Apia's date-line
+jump) are covered by the monitor only. -/
+theorem cron_next_termination_needs_bounded_shift : ¬ CronSpec.next_terminates_bounded_offsets_statement :=
+  CronSpec.next_terminates_bounded_offsets_false
 
 /-- `aeskw.Unwrap` never panics (after fix 4f2d58e; `unwrap_prefix_witness` in C03 is the code as found). -/
 theorem aeskw_unwrap_never_panics (bc : CryptoGlue.BlockCipher) (c : Bytes) : (CryptoGlue.unwrap bc c).isPanic = false :=
@@ -177,7 +208,7 @@ theorem aescbcaead_params_sound :
 theorem cited_elsewhere_exist :
     (NoPanic.Inventory.citedElsewhere.map (·.2)).all
       (· ∈ thm_names% [Kit.Cron.parse_never_panics, Kit.CryptoGlue.unwrap_never_panics,
-        Kit.CronSpec.next_terminates, Kit.CryptoGlue.dispatch_never_out_of_range,
+        Kit.CronSpec.next_terminates, Kit.CryptoGlue.asym_never_panics,
         Kit.C07.encryptSymmetric_never_panics, Kit.C07.decryptSymmetric_never_panics,
         Kit.C07.aeskw_wrap_never_panics, Kit.C07.pad_never_panics, Kit.C07.unpad_never_panics,
         Kit.C07.cbcHmacOpen_never_panics, Kit.C07.cbcHmacSeal_never_panics,
